@@ -1,5 +1,6 @@
 (* src/json/iwjson.c: JSON Patch (rfc6902 + increment/add_create/swap) on `struct jbl_node` trees.
-   The model follows the code WITH fixes/jpatch-{klidx,remove-missing,copy-clone,array-index,empty-path}.diff and
+   The model follows /repo HEAD (all fixes/jpatch-*.diff are committed, the last ones 9a2bde2 ... eca2cba); earlier it was the code WITH
+   fixes/jpatch-{klidx,remove-missing,copy-clone,array-index,empty-path}.diff and
    fixes/safety-patch-nofrom.diff (C17 family: move/copy/swap without `from` is JBL_ERROR_PATCH_INVALID) applied
    (see notes/jpatch.md for what the unfixed code does on the same inputs).
 
@@ -56,12 +57,29 @@ Fixpoint find_pos (f : node -> bool) (l : list node) : option nat :=
   | x :: r => if f x then Some O else match find_pos f r with Some i => Some (S i) | None => None end
   end.
 
-(* one step of _jbl_node_find: position of the child addressed by a segment *)
+(* _jbl_array_index (eca2cba): an rfc6901 array index - "0", or digits without a leading zero, at most nine (the value fits an int).
+   `lenient_idx = true` is the reading before that repair (iwatoi on any text, cast to int where an `int` was used): kept for the
+   theorems that state what was wrong (Properties_C15: C15_array_index_leniency_refuted). *)
+Definition is_digit_c (c : Z) : bool := (48 <=? c) && (c <=? 57).
+Definition dec_val_c (s : list Z) : Z := fold_left (fun a c => a * 10 + (c - 48)) s 0.
+Definition arr_index_v (lenient_idx : bool) (s : seg) : option Z :=
+  if lenient_idx then Some (sw 32 (atoi s))
+  else match s with
+       | [] => None
+       | c :: r =>
+         if c =? 48 then match r with [] => Some 0 | _ => None end
+         else if forallb is_digit_c s && (length s <=? 9)%nat then Some (dec_val_c s) else None
+       end.
+Definition arr_index (s : seg) : option Z := arr_index_v false s.
+
+(* one step of _jbl_node_find: position of the child addressed by a segment; "-" is the (nonexistent) element after the last *)
 Definition child_pos (n : node) (s : seg) : option nat :=
   match n_ty n with
   | TObj => find_pos (key_match s) (n_ch n)
-  | TArr => if is_dash s then match n_ch n with [] => None | _ => Some (pred (length (n_ch n))) end
-            else find_pos (fun c => atoi s =? n_kl c) (n_ch n)      (* searched BY CACHED klidx *)
+  | TArr => match arr_index s with
+            | Some i => find_pos (fun c => i =? n_kl c) (n_ch n)      (* searched BY CACHED klidx *)
+            | None => None
+            end
   | _ => None
   end.
 
@@ -131,21 +149,36 @@ Definition op_eqb (a b : opk) : bool := op_code a =? op_code b.
 
 (* the double arithmetic used by `increment` and the double comparison of `test`; bits in, bits out.  The models
    never interpret a double themselves: the operations are arguments. *)
-Record fops := { f_add : Z -> Z -> Z; f_of_i : Z -> Z; f_to_i : Z -> Z; f_eq : Z -> Z -> bool }.
+Record fops := { f_add : Z -> Z -> Z; f_of_i : Z -> Z; f_to_i : Z -> Z; f_eq : Z -> Z -> bool;
+                 f_fits : Z -> bool       (* -2^63 <= d < 2^63, false for NaN: the double can be cast to int64 *) }.
 
-(* _jbl_increment_node_data *)
-Definition increment (fo : fops) (target value : node) : rc * node :=
+Definition i64_ok (x : Z) : bool := (- 9223372036854775808 <=? x) && (x <=? 9223372036854775807).
+
+(* _jbl_increment_node_data (9a2bde2): a sum that is no int64, or a double operand that cannot be cast, is
+   JBL_ERROR_PATCH_INVALID_VALUE with the target unchanged.  `wrap = true` is the code before that repair (signed overflow; modelled
+   as two's complement wrap-around): kept for C15_increment_wraps_refuted. *)
+Definition increment_v (wrap : bool) (fo : fops) (target value : node) : rc * node :=
   match n_ty value with
   | TI64 | TF64 =>
     match target with
     | Node kl k TI64 vi s c =>
-      (RcOk, Node kl k TI64 (sw 64 (vi + match n_ty value with TI64 => n_vi value | _ => f_to_i fo (n_vi value) end)) s c)
+      if wrap then
+        (RcOk, Node kl k TI64 (sw 64 (vi + match n_ty value with TI64 => n_vi value | _ => f_to_i fo (n_vi value) end)) s c)
+      else
+        match (match n_ty value with
+               | TI64 => Some (n_vi value)
+               | _ => if f_fits fo (n_vi value) then Some (f_to_i fo (n_vi value)) else None
+               end) with
+        | None => (RcInvalidValue, target)
+        | Some add => if i64_ok (vi + add) then (RcOk, Node kl k TI64 (vi + add) s c) else (RcInvalidValue, target)
+        end
     | Node kl k TF64 vi s c =>
       (RcOk, Node kl k TF64 (f_add fo vi (match n_ty value with TF64 => n_vi value | _ => f_of_i fo (n_vi value) end)) s c)
     | _ => (RcTargetInvalid, target)
     end
   | _ => (RcInvalidValue, target)
   end.
+Definition increment (fo : fops) (target value : node) : rc * node := increment_v false fo target value.
 
 (* _jbl_compare_nodes(a, b) == 0.  Objects: the code sorts both member arrays by (klidx, key) and compares
    pairwise; for member names without duplicates that is: same count and every member of a has an equal member
@@ -207,15 +240,18 @@ Definition put_here (fo : fops) (k : opk) (p : node) (s : seg) (v : node) : rc *
       end
     else if is_dash s then (RcOk, add_item p v)
     else
-      let idx := sw 32 (atoi s) in                       (* int idx = iwatoi(...) *)
-      let len := Z.of_nat (length (n_ch p)) in
-      if (idx >? len) || (idx <? 0) then (RcBadIdx, p)
-      else
-        let v1 := set_kl v idx in
-        if idx <? len then
-          let i := Z.to_nat idx in
-          (RcOk, set_ch p (firstn i (n_ch p) ++ v1 :: map inc_kl (skipn i (n_ch p))))
-        else (RcOk, add_item p v1)
+      match arr_index s with
+      | None => (RcBadIdx, p)                              (* no rfc6901 index *)
+      | Some idx =>
+        let len := Z.of_nat (length (n_ch p)) in
+        if (idx >? len) || (idx <? 0) then (RcBadIdx, p)
+        else
+          let v1 := set_kl v idx in
+          if idx <? len then
+            let i := Z.to_nat idx in
+            (RcOk, set_ch p (firstn i (n_ch p) ++ v1 :: map inc_kl (skipn i (n_ch p))))
+          else (RcOk, add_item p v1)
+      end
   | TObj =>
     match child_pos p s with
     | Some i =>
@@ -346,13 +382,16 @@ Definition swap_target (t : node) (path : list seg) : option (list nat * option 
     let s := last path [] in
     match n_ty p with
     | TArr => if is_dash s then Some (pp, None)
-              else let idx := sw 32 (atoi s) in
-                   if (0 <=? idx) && (idx <? Z.of_nat (length (n_ch p))) then
-                     match nth_error (n_ch p) (Z.to_nat idx) with
-                     | Some c => Some (pp, Some (Z.to_nat idx, c))
-                     | None => Some (pp, None)
-                     end
-                   else Some (pp, None)
+              else match arr_index s with
+                   | None => Some (pp, None)
+                   | Some idx =>
+                     if (0 <=? idx) && (idx <? Z.of_nat (length (n_ch p))) then
+                       match nth_error (n_ch p) (Z.to_nat idx) with
+                       | Some c => Some (pp, Some (Z.to_nat idx, c))
+                       | None => Some (pp, None)
+                       end
+                     else Some (pp, None)
+                   end
     | TObj => match child_pos p s with
               | Some i => match nth_error (n_ch p) i with Some c => Some (pp, Some (i, c)) | None => Some (pp, None) end
               | None => Some (pp, None)
